@@ -13,7 +13,8 @@ import time
 def enc_name(name):
     out = b""
     if isinstance(name, str):
-        labels = [l.encode() for l in name.split(".") if l]
+        # "\x1f" inside a label stands for a literal '.' octet that is part of the label (not a separator)
+        labels = [l.encode().replace(b"\x1f", b".") for l in name.split(".") if l]
     else:
         labels = name
     for l in labels:
@@ -143,6 +144,8 @@ class Upstream:
 
     def __init__(self, addr, script, family=socket.AF_INET, name="up"):
         self.addr = addr
+        SCRIPTED_PEERS.add(addr)
+        SCRIPTED_PEERS.add("::ffff:" + addr)
         self.script = script
         self.name = name
         self.events = []
@@ -332,9 +335,16 @@ class Upstream:
             return [e for e in self.events if e["kind"] == "query" and (e.get("qname") or "").lower() == qname_lower and (proto is None or e["proto"] == proto)]
 
 
-def udp_query(server, data, src=None, timeout=3.0, family=socket.AF_INET, bufsize=65535, collect_for=0.0):
+STRAY_IGNORED = [0]
+# addresses of this process's scripted upstreams (filled in by Upstream.__init__)
+SCRIPTED_PEERS = set()
+
+
+def udp_query(server, data, src=None, timeout=3.0, family=socket.AF_INET, bufsize=65535, collect_for=0.0, ignore_from=()):
     """Send one datagram, return list of (bytes, from_addr) received within timeout (all of them if
-    collect_for > 0, else just the first)."""
+    collect_for > 0, else just the first).  ignore_from: IP addresses of the rig's own scripted peers (those of this process's
+    Upstream objects are known anyway); a datagram from port 53 of one of them is not a response of the server under test (it was addressed to a port the server's closed
+    upstream socket used to have and this socket has now) and is skipped without ending the wait."""
     s = socket.socket(family, socket.SOCK_DGRAM)
     try:
         if src:
@@ -350,6 +360,9 @@ def udp_query(server, data, src=None, timeout=3.0, family=socket.AF_INET, bufsiz
             if not r:
                 break
             d, frm = s.recvfrom(bufsize)
+            if frm[1] == 53 and frm[0] != server[0] and (frm[0] in ignore_from or frm[0] in SCRIPTED_PEERS):
+                STRAY_IGNORED[0] += 1
+                continue
             out.append((d, frm))
             if collect_for <= 0:
                 break
